@@ -3,6 +3,13 @@
 # executed under Miri (UB, invalid accesses, leaks) and under valgrind memcheck; their verdicts are
 # handed to the main binary through the environment and end up in the evidence / as violations.
 tier="$1"; shift
+# canary: the native enumeration in its own process; death by signal = memory corruption
+/verif/target/release/c13 canary >/verif/target/c13-canary.log 2>&1
+rc=$?
+if [ $rc -ge 128 ] || { [ $rc -ne 0 ] && ! grep -q "^canary:" /verif/target/c13-canary.log; }; then
+    C13_CRASH="exit status $rc: $(tail -1 /verif/target/c13-canary.log | cut -c1-120)"
+    export C13_CRASH
+fi
 if [ "$tier" = "thorough" ] && [ $# -eq 0 ]; then
     cd /verif/mc || exit 2
     export CARGO_NET_OFFLINE=true
